@@ -540,6 +540,18 @@ func c20Table(p *Prog, r *Report) {
 					continue
 				}
 				if !okc {
+					// the lookup of a helper that is given the name (nonEmptyEnv(name)): judged where it is called
+					isParam := false
+					for _, po := range paramObjs(fi) {
+						if po != nil && objOf(info, c.Args[0]) == po {
+							isParam = true
+						}
+					}
+					if isParam {
+						continue
+					}
+				}
+				if !okc {
 					r.Undecided("C20.b", fi.Key+"#lookup", p.pos(c), "the name of the environment variable is not a constant at this lookup (a table of options driven by one loop): not a form the per-setting rule follows")
 					continue
 				}
